@@ -150,7 +150,7 @@ def step (σ : St) (op obs : List String) : St × List Msg :=
   match op, obs with
   | ["cfg", _, profile], _ => cfgStep σ profile obs
   | ["yaml", _], _ => cfgStep σ "yaml" obs
-  | ["reload", kind, _], [err, calls, ptr, applied, file] =>
+  | ["reload", kind, _], [err, calls, ptr, applied, file, running] =>
     let load : Except Unit String := if kind = "i" then .error () else .ok file
     let (c', ok) := σ.coord.reload load (kind ≠ "s")
     let mErr := if ok then "0" else "1"
@@ -161,6 +161,11 @@ def step (σ : St) (op obs : List String) : St × List Msg :=
       if kind = "i" ∧ (ptr ≠ "same" ∨ calls ≠ "0" ∨ err ≠ "1" ∨ applied ≠ mApplied) then
         [.propfail "failed_reload_keeps_config" (if ptr ≠ "same" then "config-replaced" else if calls ≠ "0" then "subscribers-called" else "not-rejected")
           s!"reload of an invalid file: err={err} subscriber calls={calls} coordinator config={ptr} in force={applied} (was {mApplied})"]
+      else if running ≠ "-" ∧ running ≠ applied then
+        -- the text of the configuration in force differs from what it was when it was applied: loading another
+        -- file (accepted or rejected) reached into the running configuration
+        [.propfail "failed_reload_keeps_config" "running-config-mutated"
+          s!"the configuration in force now prints as {running}, it printed as {applied} when it was applied (reload kind {kind})"]
       else []
     ({ σ with coord := c' },
       expectEq "reload.err" mErr err ++ expectEq "reload.calls" mCalls calls ++ expectEq "reload.ptr" mPtr ptr
